@@ -13,7 +13,7 @@ func init() {
 	register("VDRP", func(c *Ctx) {
 		src, _ := os.ReadFile(os.Getenv("TA_MRO"))
 		spec := &VdrSpec{Src: string(src), Seed: c.Seed, VdrMode: os.Getenv("TA_VDR"), StepBias: 0.4, StartSeparate: 0.3,
-			LateConsumers: os.Getenv("TA_LATE") != "", NoExtra: os.Getenv("TA_NOEXTRA") != ""}
+			LateConsumers: os.Getenv("TA_LATE") != "", NoExtra: os.Getenv("TA_NOEXTRA") != "", LinkedRoot: os.Getenv("TA_LINKEDROOT") != ""}
 		if s := os.Getenv("TA_CRASH"); s != "" {
 			for _, x := range strings.Split(s, ",") {
 				n, _ := strconv.Atoi(x)
